@@ -333,7 +333,23 @@ func (h *harness) check(res *kernel.Result) {
 		pops[i] = porcupine.Operation{ClientId: o.th, Input: o, Call: o.call, Return: o.ret}
 	}
 	res.Evals++
-	switch porcupine.CheckOperationsTimeout(m.model(), pops, 30*time.Second) {
+	// (the search for a linearisation can take long on a rare history: it is cut
+	// off after 15 s - inconclusive, counted - and the watchdog is told that the
+	// worker is alive meanwhile)
+	alive := make(chan struct{})
+	go func() {
+		for {
+			select {
+			case <-alive:
+				return
+			case <-time.After(2 * time.Second):
+				kernel.Progress()
+			}
+		}
+	}()
+	verdict := porcupine.CheckOperationsTimeout(m.model(), pops, 15*time.Second)
+	close(alive)
+	switch verdict {
 	case porcupine.Ok:
 		res.Count("probe.linearizable", 1)
 	case porcupine.Unknown:
